@@ -892,7 +892,7 @@ func conclude(p *Parent, wall time.Duration) int {
 	isKnown := func(sig string) *knownFinding {
 		for i := range known {
 			k := &known[i]
-			if k.kind == "known" && k.property == ck.ID && k.sig == sig {
+			if k.kind == "known" && k.property == ck.ID && globMatch(k.sig, sig) {
 				return k
 			}
 		}
@@ -958,6 +958,33 @@ func conclude(p *Parent, wall time.Duration) int {
 		return 2
 	}
 	return 0
+}
+
+// globMatch matches a known-finding signature pattern against a signature. A pattern without '*' must
+// be equal; '*' stands for any (possibly empty) run of characters. Patterns are written so that the
+// fixed parts name the failing call site (and the oracle view where that matters), e.g.
+// "*|renameat:dir": whatever oracle clause observed it, the fault was injected at the directory rename.
+func globMatch(pattern, sig string) bool {
+	if !strings.Contains(pattern, "*") {
+		return pattern == sig
+	}
+	parts := strings.Split(pattern, "*")
+	if !strings.HasPrefix(sig, parts[0]) {
+		return false
+	}
+	rest := sig[len(parts[0]):]
+	for i := 1; i < len(parts); i++ {
+		p := parts[i]
+		if i == len(parts)-1 {
+			return strings.HasSuffix(rest, p)
+		}
+		j := strings.Index(rest, p)
+		if j < 0 {
+			return false
+		}
+		rest = rest[j+len(p):]
+	}
+	return true
 }
 
 func shortHash(s string) string {
